@@ -552,6 +552,26 @@ def c04_construct(R):
                         print(src, '->', got)
                         if isinstance(got, BaseException) or (len(got) != n if isinstance(got, list) else n != 1): print('REPLAY-CONFIRMED')
                     """, src=src, vals=vals, n=n))
+    for n in (3, 4):
+        mt = f"float{n}x{n}"
+        forms = [[n] * k for k in range(1, 6) if k != n] + [[1] * (n * n), [n - 1] * n, [n] * (n - 1) + [1], [1] + [n] * (n - 1)]
+        for parts in forms:
+            params = ", ".join(f"{vt(k)} a{i}" for i, k in enumerate(parts))
+            args = ", ".join(f"a{i}" for i in range(len(parts)))
+            src = f"export function f({params}) -> {mt} {{ return {mt}({args}); }}"
+            label = f"{mt}({','.join(vt(k) for k in parts)})"
+            r, exc = program(src)
+            if r is None:
+                R.ok(f"C04.construct.arity[{label}]", fnt, detail="rejected")
+                continue
+            vals = {f"a{i}": (1.5 + i if k == 1 else [float(10 * i + j) for j in range(k)]) for i, k in enumerate(parts)}
+            try:
+                got, _ = invoke(r, "f", **vals)
+                ok = isinstance(got, list) and len(got) == n and all(isinstance(x, list) and len(x) == n for x in got)
+                det = f"accepted; the VM returns {got!r} for a `{mt}`"
+            except Exception as e:
+                ok, det = False, f"accepted; the VM raises {type(e).__name__}: {e}"
+            R.check(f"C04.construct.arity[{label}]", fnt, ok, detail=f"{src}\n{det}")
     # scalar constructors are the explicit conversion syntax: T(x) with one scalar argument yields x converted to T
     for tk, tn in (("f", "float"), ("i", "int"), ("u", "uint")):
         for ak, an in (("f", "float"), ("i", "int"), ("u", "uint")):
